@@ -27,10 +27,10 @@ def run(chk):
         chk.expect_holds(res, "verdict function total and consistent")
         chk.add_tlc(res, "all token strings <=%d over 15 tokens + method/handler/count block" % (4 if thorough else 3))
         # longer definitions over a reduced alphabet (variables with regexes, nested optional parts)
-        res2 = core.run_tlc("MC_Defs", cfg_text=dcfg(7 if thorough else 5, {"/", "a", "{", "}", ":", "(", "(?:", "(?P<n>", ")", "\\\\d+"} if thorough
+        res2 = core.run_tlc("MC_Defs", cfg_text=dcfg(5, {"/", "a", "{", "}", ":", "(", "(?:", "(?P<n>", ")", "\\\\d+"} if thorough
                                                    else {"/", "{", "}", "x", ":", "(", "(?P<n>", ")"}), timeout=1800, keep_lines=False, line_cb=cb)
         chk.expect_holds(res2, "verdict function (long definitions)")
-        chk.add_tlc(res2, "all token strings <=%d over a reduced alphabet (variable regexes with groups)" % (7 if thorough else 5))
+        chk.add_tlc(res2, "all token strings <=5 over a reduced alphabet (variable regexes with groups, named groups)")
     s = core.run_harness(["defs", "replay", out], timeout=3000)
     chk.absorb(s, "defs")
     chk.extra["accepted_by_verdict"] = {k: v for k, v in s.get("info", {}).items()}
